@@ -45,7 +45,9 @@ func loadKnownFindings(path string) ([]KnownFinding, error) {
 	var out []KnownFinding
 	for _, line := range strings.Split(string(b), "\n") {
 		line = strings.TrimSpace(line)
-		if line == "" || strings.HasPrefix(line, "#") {
+		if line == "" || strings.HasPrefix(line, "#") || strings.HasPrefix(line, "fixed:") {
+			// "fixed: property=<id> <commit> <what failed>" lines document repaired
+			// defects; they suppress nothing
 			continue
 		}
 		var k KnownFinding
@@ -115,6 +117,12 @@ var termMu sync.Mutex // term construction is not thread-safe
 func (o *Obligation) Script(extra ...*Term) string {
 	termMu.Lock()
 	defer termMu.Unlock()
+	return Script(o.asserts(true, extra...), true)
+}
+
+// asserts builds the query; sliced=false keeps every assumption (used for replay
+// models, whose inputs must satisfy all preconditions).
+func (o *Obligation) asserts(sliced bool, extra ...*Term) []*Term {
 	asserts := append([]*Term{}, o.Gen.Defs[:o.NDefs]...)
 	asserts = append(asserts, extra...)
 	asserts = append(asserts, o.Reach)
@@ -123,12 +131,15 @@ func (o *Obligation) Script(extra ...*Term) string {
 	} else if o.Goal != nil {
 		asserts = append(asserts, o.Goal)
 	}
-	sl := sliceCOI(asserts, len(extra)+2)
+	sl := asserts
+	if sliced {
+		sl = sliceCOI(asserts, len(extra)+2)
+	}
 	sl = elimDiv(sl)
 	if !o.MustSat {
 		sl = Instantiate(sl, 2, 48)
 	}
-	return Script(sl, true)
+	return sl
 }
 
 // sliceCOI keeps the assertions that share symbols (transitively) with the last
@@ -225,7 +236,7 @@ func RunCheck(opts *CheckOpts) int {
 	if err := prog.LoadTrusted(filepath.Join(opts.VerifDir, "trusted")); err != nil {
 		return fail("trusted specs: %v", err)
 	}
-	known, err := loadKnownFindings(filepath.Join(opts.VerifDir, "known_findings.jsonl"))
+	known, err := loadKnownFindings(filepath.Join(opts.VerifDir, "known-findings.txt"))
 	if err != nil {
 		return fail("%v", err)
 	}
@@ -309,6 +320,9 @@ func RunCheck(opts *CheckOpts) int {
 	}
 	if opts.KeepSMT != "" {
 		os.MkdirAll(opts.KeepSMT, 0o755)
+	}
+	if opts.Only == "" {
+		os.RemoveAll(filepath.Join(opts.VerifDir, "replays", prop))
 	}
 	results := make([]*oblResult, len(todo))
 	var wg sync.WaitGroup
